@@ -210,6 +210,13 @@ func safeMerge(files []*ach.File, cond ach.Conditions) (out []*ach.File, err err
 // batches when no limit binds).  fail receives (signature, what, observed, required).
 func CheckOutputs(prefix string, out []*ach.File, cond ach.Conditions, plans map[string]*m.RoutePlan, routes []string, structure bool,
 	report func(sig, what, observed, required string)) bool {
+	return CheckOutputsWith(prefix, out, cond, plans, routes, structure, nil, report)
+}
+
+// CheckOutputsWith: RouteOpts maps an origin/destination to the union of the
+// ValidateOpts of its inputs (only used to name one failure precisely).
+func CheckOutputsWith(prefix string, out []*ach.File, cond ach.Conditions, plans map[string]*m.RoutePlan, routes []string, structure bool,
+	RouteOpts map[string]*ach.ValidateOpts, report func(sig, what, observed, required string)) bool {
 	ok := true
 	fail := func(sig, what, observed, required string) {
 		ok = false
@@ -226,12 +233,18 @@ func CheckOutputs(prefix string, out []*ach.File, cond ach.Conditions, plans map
 		}
 		if err := validate(f); err != nil {
 			sig, what := "invalid-output/"+m.ErrClass(err), "a merged file does not pass Validate()"
-			// a later file of a split that lost the ValidateOpts the first file of its route carries
+			// a file of a split that lost the ValidateOpts its inputs (and the first file of its route) carry
 			if f.GetValidation() == nil {
+				cands := []*ach.ValidateOpts{RouteOpts[s.Route]}
 				for j, g := range out {
-					if g != nil && j != i && snaps[j].Route == s.Route && g.GetValidation() != nil && validateWith(f, g.GetValidation()) == nil {
-						sig = "invalid-output/later-file-of-split-lacks-validate-opts"
-						what = "a merged file does not pass Validate(): it carries no ValidateOpts although the first file of the same origin/destination does and it is valid under those"
+					if g != nil && j != i && snaps[j].Route == s.Route {
+						cands = append(cands, g.GetValidation())
+					}
+				}
+				for _, v := range cands {
+					if v != nil && validateWith(f, v) == nil {
+						sig = "invalid-output/file-after-split-lacks-validate-opts"
+						what = "a merged file does not pass Validate(): it carries no ValidateOpts although the inputs of its origin/destination do, and it is valid under those"
 						break
 					}
 				}
